@@ -46,6 +46,33 @@ def real_task_groups(ctx):
     return fails, n
 
 
+def wsgi_failures(ctx):
+    """A WSGI application that raises (in the call, or while its iterable is consumed, before or after the first chunk)
+    through the real middleware of both workers: the ASGI side must see the failure - an exception, and no terminating body
+    message after it - so that the server answers 500 or cuts the response short."""
+    import random
+
+    from . import c17
+
+    rng = random.Random(ctx.seed * 31337 + 5)
+    fails, n = [], 0
+    for i in range(ctx.scale(60, 600, 200)):
+        shape = c17.gen_shape(rng)
+        if not (any(s[0] == "raise" for s in shape.call) or any(s[0] == "raise" for s in shape.it)):
+            continue
+        sc = c17.gen_scope(rng)
+        sc["root_path"] = ""
+        worker = "asyncio" if i % 2 == 0 else "trio"
+        rec, sent, raised = c17.run_shape(worker, shape, sc, [{"type": "http.request", "body": b"", "more_body": False}], 1000, separate=i % 3 == 0)
+        n += 1
+        case = {"kind": "wsgi-failure", "worker": worker, "shape": shape.describe(), "sent": [m["type"] + ":" + str(m.get("more_body")) for m in sent]}
+        if not raised:
+            fails.append({"case": case, "what": "the WSGI application raised but the failure did not reach the server", "signature": "c05:wsgi-failure-swallowed"})
+        elif sent and sent[-1]["type"] == "http.response.body" and not sent[-1].get("more_body"):
+            fails.append({"case": case, "what": "the response of a failed WSGI application was completed all the same", "signature": "c05:wsgi-complete-after-failure"})
+    return fails, n
+
+
 def run(ctx):
     h2x = K.h2_extra(["c05", "c02"], (150, 2500, 800), crashes=True)
 
@@ -55,6 +82,10 @@ def run(ctx):
         r["failures"] = list(r["failures"]) + f
         r["count"] += n
         r["dist"]["real_task_group_sessions"] = n
+        f, n = wsgi_failures(c)
+        r["failures"] = list(r["failures"]) + f
+        r["count"] += n
+        r["dist"]["wsgi_failures"] = n
         return r
 
     return K.run_common(ctx, PROP, ["c05", "c06"], (200, 2500, 800), (300, 3000, 1000), (350, 5000, 2000), kw,
